@@ -759,6 +759,299 @@ func TestDecodeVsRef(t *testing.T) {
 	})
 }
 
+// ---- lists of words / fixed-size structures: every element is decoded from its own position ----------------------
+//
+// decode-vs-ref judges the fixed-width own fields of a structure; the elements of a list-valued field (the
+// lock ranges of SMB_COM_LOCKING_ANDX, the setup words of a transaction) are values of the same kind one level
+// down, each at its own position: element k of a list whose elements are w bytes wide stands at bytes
+// [k*w, (k+1)*w) of the list, and the list stands where the encoder puts it (found by marking all members,
+// smbgen.MarkDeep). Every list of the structure gets its own generated number of elements, the span of one
+// list is overwritten with a generated byte pattern (adjacent elements differ; members MS-CIFS reserves as
+// Pad / Reserved stay zero, which is what a reference encoder writes there and what a decoder is free to
+// ignore) and the bytes are decoded: element k must hold, member by member in declaration order, the value
+// whose little-endian image stands at its position. A decoder that reads an element from somewhere else
+// (the start of the data block instead of behind the preceding list, say) is told apart by searching the
+// reference encoding for the image of what it returned.
+
+type listCase struct {
+	Struct  string                     `json:"struct"`
+	Fields  map[string]json.RawMessage `json:"fields"`
+	Field   string                     `json:"field"`
+	Pattern vf.Hex                     `json:"pattern"` // the reference bytes of the whole list, element after element
+}
+
+type listMember struct {
+	name       string // "" for a list of plain words
+	off, width int
+	reserved   bool
+}
+
+// listElemLayout: the members of one list element in declaration order with their MS-CIFS widths; ok is false
+// when a member is not a fixed-width value (strings, nested structures: not laid out by position alone).
+func listElemLayout(t reflect.Type) (ms []listMember, width int, ok bool) {
+	if w := smbgen.FixedWidth(t); w > 0 {
+		return []listMember{{"", 0, w, false}}, w, true
+	}
+	if t.Kind() != reflect.Struct {
+		return nil, 0, false
+	}
+	for i := 0; i < t.NumField(); i++ {
+		f := t.Field(i)
+		if !f.IsExported() {
+			continue
+		}
+		w := smbgen.FixedWidth(f.Type)
+		if w == 0 {
+			return nil, 0, false
+		}
+		ms = append(ms, listMember{f.Name, width, w, f.Name == "Pad" || strings.HasPrefix(f.Name, "Reserved")})
+		width += w
+	}
+	return ms, width, width > 0
+}
+
+func listMemberValue(el reflect.Value, m listMember) reflect.Value {
+	if m.name == "" {
+		return el
+	}
+	return el.FieldByName(m.name)
+}
+
+// listSpanOwner says which list of the structure (and which of its elements) the byte at offset off of the
+// encoding belongs to, as far as marking can tell.
+func listSpanOwner(e smbgen.Entry, fields map[string]json.RawMessage, off int) string {
+	cmd := smbgen.New(e)
+	if smbgen.Restore(cmd, fields) != nil {
+		return "no list of the structure"
+	}
+	rv := reflect.ValueOf(cmd).Elem()
+	for _, g := range smbgen.ListFields(cmd) {
+		gv := rv.FieldByName(g)
+		_, ew, ok := listElemLayout(gv.Type().Elem())
+		if !ok || gv.Len() == 0 {
+			continue
+		}
+		sl := smbgen.MarkDeep(e, fields, g)
+		if sl.ProblemKind != "" || sl.Width != gv.Len()*ew || off < sl.Start || off >= sl.Start+sl.Width {
+			continue
+		}
+		if (off-sl.Start)%ew == 0 {
+			return fmt.Sprintf("the position of %s[%d]", g, (off-sl.Start)/ew)
+		}
+		return fmt.Sprintf("inside the span of %s, %d bytes into element %d", g, (off-sl.Start)%ew, (off-sl.Start)/ew)
+	}
+	return "no list of the structure"
+}
+
+func listDecodeVerdict(c listCase) ([]vf.Finding, string) {
+	e, ok := smbgen.ByName(c.Struct)
+	if !ok {
+		return []vf.Finding{vf.F("harness", "bad-case", "unknown structure %s", c.Struct)}, "bad-case"
+	}
+	subject := c.Struct + "." + c.Field
+	cmd := smbgen.New(e)
+	if err := smbgen.Restore(cmd, c.Fields); err != nil {
+		return []vf.Finding{vf.F("harness", "bad-case", "%v", err)}, "bad-case"
+	}
+	rv := reflect.ValueOf(cmd).Elem()
+	fv := rv.FieldByName(c.Field)
+	if !fv.IsValid() || fv.Kind() != reflect.Slice {
+		return []vf.Finding{vf.F("harness", "bad-case", "%s is not a list", subject)}, "bad-case"
+	}
+	ms, ew, ok := listElemLayout(fv.Type().Elem())
+	if !ok {
+		return nil, "not-judged:element-not-fixed-width"
+	}
+	n := fv.Len()
+	if n == 0 {
+		return nil, "no-slot"
+	}
+	if len(c.Pattern) != n*ew {
+		return []vf.Finding{vf.F("harness", "bad-case", "%d pattern bytes for %d elements of %d bytes", len(c.Pattern), n, ew)}, "bad-case"
+	}
+	sl := smbgen.MarkDeep(e, c.Fields, c.Field)
+	if sl.ProblemKind != "" || sl.Width != n*ew {
+		// not emitted, or the elements are not laid out back to back: the encoder side (C04 slot-locality, C05
+		// widths-on-wire / nested-integers) reports that; there is no position to write reference bytes to
+		return nil, "no-slot"
+	}
+	own := smbgen.New(e)
+	if err := safeUnmarshal(own, append([]byte{}, sl.Enc...)); err != nil {
+		return nil, "own-encoding-not-decodable" // C04's finding, as in decode-vs-ref
+	}
+	populated, lists := 0, 0
+	for _, g := range smbgen.ListFields(cmd) {
+		lists++
+		if rv.FieldByName(g).Len() > 0 {
+			populated++
+		}
+	}
+	status := "judged:single-list"
+	if lists > 1 {
+		status = "judged:some-other-list-empty"
+		if populated == lists {
+			status = "judged:every-list-populated"
+		}
+	}
+	ref := append([]byte{}, sl.Enc...)
+	copy(ref[sl.Start:], c.Pattern)
+	dec := smbgen.New(e)
+	if err := safeUnmarshal(dec, append([]byte{}, ref...)); err != nil {
+		return []vf.Finding{vf.F(subject, "reference-encoding-rejected", "%d elements %x in the list's span [%d,+%d): %v", n, []byte(c.Pattern), sl.Start, sl.Width, err)}, status
+	}
+	got := reflect.ValueOf(dec).Elem().FieldByName(c.Field)
+	if got.Len() != n {
+		return []vf.Finding{vf.F(subject, "list-length-differs", "%d elements in the span [%d,+%d) (count fields as the library wrote them), %d decoded", n, sl.Start, sl.Width, got.Len())}, status
+	}
+	var fs []vf.Finding
+	seen := map[string]bool{}
+	add := func(kind, format string, a ...any) {
+		if !seen[kind] { // one finding per kind and case: the first element that shows it
+			seen[kind] = true
+			fs = append(fs, vf.F(subject, kind, format, a...))
+		}
+	}
+	for k := 0; k < n; k++ {
+		want := []byte(c.Pattern[k*ew : (k+1)*ew])
+		var image []byte
+		equal, swapped := true, true
+		bad := ""
+		for _, m := range ms {
+			mv := listMemberValue(got.Index(k), m)
+			g := smbgen.PatternOf(mv)
+			image = append(image, g...)
+			w := want[m.off : m.off+m.width]
+			if bytes.Equal(g, w) {
+				continue
+			}
+			equal = false
+			if bad == "" {
+				bad = m.name
+			}
+			if !bytes.Equal(g, reversedPerElement(w, elemWidth(mv.Type()))) {
+				swapped = false
+			}
+		}
+		if equal {
+			continue
+		}
+		at := fmt.Sprintf("element %d", k)
+		if bad != "" {
+			at += " (first differing member: " + bad + ")"
+		}
+		if swapped {
+			add("byte-reversed-in-own-slot", "%s: bytes %x at [%d,+%d) decoded as the value whose little-endian image is %x", at, want, sl.Start+k*ew, ew, image)
+			continue
+		}
+		from := -1
+		if len(image) == ew {
+			for i := 0; i+ew <= len(ref); i++ {
+				if i != sl.Start+k*ew && bytes.Equal(ref[i:i+ew], image) {
+					from = i
+					break
+				}
+			}
+		}
+		if from >= 0 {
+			add("element-decoded-from-another-position", "%s stands at [%d,+%d) of the reference encoding and holds %x; decoded as the value whose little-endian image is %x, which stands at offset %d (%s)", at, sl.Start+k*ew, ew, want, image, from, listSpanOwner(e, c.Fields, from))
+			continue
+		}
+		add("other-decoding", "%s: bytes %x at [%d,+%d) decoded as the value whose little-endian image is %x", at, want, sl.Start+k*ew, ew, image)
+	}
+	return fs, status
+}
+
+func TestListElementsDecodeVsRef(t *testing.T) {
+	s := vf.Begin(t, P, "list-elements-decode-vs-ref")
+	type target struct {
+		e     smbgen.Entry
+		field string
+	}
+	var targets []target
+	var named, left []string
+	for _, e := range smbgen.Inventory() {
+		cmd := smbgen.New(e)
+		for _, f := range smbgen.ListFields(cmd) {
+			ft, _ := reflect.TypeOf(cmd).Elem().FieldByName(f)
+			if _, _, ok := listElemLayout(ft.Type.Elem()); !ok {
+				left = append(left, e.Name+"."+f)
+				continue
+			}
+			targets = append(targets, target{e, f})
+			named = append(named, e.Name+"."+f)
+		}
+	}
+	s.Note("%d list fields with fixed-width elements: %v; elements with members that are not fixed-width (not laid out by position alone, not judged here): %v", len(targets), named, left)
+	if len(targets) < 2 {
+		t.Fatalf("INFRA: only %d list fields with fixed-width elements found", len(targets))
+	}
+	per := vf.N(40, 400)
+	idx := 0
+	o := smbgen.Options{MaxBytes: 12, DistinctBytes: true}
+	vf.Rapid(s, len(targets)*per, func(t *rapid.T) listCase {
+		tg := targets[(idx/per)%len(targets)]
+		idx++
+		cmd := smbgen.New(tg.e)
+		smbgen.Fill(t, cmd, o)
+		// every list its own number of elements; three cases in four none of them is empty (a list read from the
+		// position of another one shows only when both are there)
+		atLeast := 0
+		if rapid.IntRange(0, 3).Draw(t, "everyListPopulated") > 0 {
+			atLeast = 1
+		}
+		for _, g := range smbgen.ListFields(cmd) {
+			lo := atLeast
+			if g == tg.field {
+				lo = 1
+			}
+			smbgen.FillList(t, cmd, g, rapid.IntRange(lo, 4).Draw(t, g+"N"), o)
+		}
+		fv := reflect.ValueOf(cmd).Elem().FieldByName(tg.field)
+		ms, ew, _ := listElemLayout(fv.Type().Elem())
+		n := fv.Len()
+		p := rapid.SliceOfN(rapid.ByteRange(1, 254), n*ew, n*ew).Draw(t, "pattern")
+		first := 0 // the first byte of an element that is not reserved
+		for _, m := range ms {
+			if !m.reserved {
+				first = m.off
+				break
+			}
+		}
+		for k := 0; k < n; k++ {
+			el := p[k*ew : (k+1)*ew]
+			for _, m := range ms {
+				if m.reserved {
+					for i := m.off; i < m.off+m.width; i++ {
+						el[i] = 0
+					}
+				}
+			}
+			if k > 0 && bytes.Equal(el, p[(k-1)*ew:k*ew]) {
+				el[first] = el[first]%254 + 1
+			}
+		}
+		return listCase{tg.e.Name, smbgen.Snapshot(cmd), tg.field, p}
+	}, func(c listCase) []vf.Finding {
+		fs, st := listDecodeVerdict(c)
+		s.Class(st)
+		return fs
+	}, func(c listCase) bool {
+		e, _ := smbgen.ByName(c.Struct)
+		cmd := smbgen.New(e)
+		if smbgen.Restore(cmd, c.Fields) != nil {
+			return false
+		}
+		rv := reflect.ValueOf(cmd).Elem()
+		populated := 0
+		for _, g := range smbgen.ListFields(cmd) {
+			if rv.FieldByName(g).Len() > 0 {
+				populated++
+			}
+		}
+		return populated >= 2 || rv.FieldByName(c.Field).Len() >= 2
+	})
+}
+
 // Header, buffer-format strings, the AndX block and the wire types below the commands: reference bytes
 // written by the harness (MS-CIFS layouts, little-endian) are decoded and the fields compared.
 
